@@ -223,6 +223,9 @@ func main() {
 		cmdCheck(os.Args[2:])
 	case "replay":
 		cmdReplay(os.Args[2:])
+	case "lockloops":
+		// maintenance: print the loop signatures of every function under contract (written to contracts/loops.lock)
+		cmdLockLoops()
 	case "all":
 		cmdAll(os.Args[2:])
 	default:
@@ -499,4 +502,36 @@ func (c *FnCtx) interfaceTypeOf(key string) types.Type {
 		return tn.Type()
 	}
 	return nil
+}
+
+
+func cmdLockLoops() {
+	eng, err := loadEngine(repoDir(), filepath.Join(verifDir(), "contracts", "lib"))
+	if err != nil {
+		fmt.Fprintln(os.Stderr, "load:", err)
+		os.Exit(2)
+	}
+	eng.loopLock = map[string]map[int]string{}
+	var keys []string
+	for k := range eng.contracts {
+		if strings.HasPrefix(k, repoPrefix) && eng.funcs[k] != nil && eng.funcs[k].Decl != nil && eng.funcs[k].Decl.Body != nil {
+			keys = append(keys, k)
+		}
+	}
+	sort.Strings(keys)
+	fmt.Println("# loop ordinal -> signature for every function under contract, recorded on the unchanged tree by `gvc lockloops`.")
+	fmt.Println("# Lets a contract's `loop N` clauses follow their loop when other loops of the function are added, removed or moved.")
+	for _, k := range keys {
+		fi := eng.funcs[k]
+		c := eng.newFnCtx(fi, false)
+		n := 0
+		ast.Inspect(fi.Decl.Body, func(x ast.Node) bool {
+			switch x.(type) {
+			case *ast.ForStmt, *ast.RangeStmt:
+				n++
+				fmt.Printf("%s\t%d\t%s\n", k, n, c.loopSignature(x))
+			}
+			return true
+		})
+	}
 }
